@@ -29,6 +29,23 @@ func (c *Ctx) exportedMethods(rel, typ string) []*ssa.Function {
 			out = append(out, fn)
 		}
 	}
+	// methods promoted from embedded module types are entry points of this type too (a sync.Mutex embedded for
+	// its Lock/Unlock is not): the wrapper that the compiler generates is analysed like a declared method
+	have := map[string]bool{}
+	for _, f := range out {
+		have[f.Name()] = true
+	}
+	ms := types.NewMethodSet(types.NewPointer(named))
+	for i := 0; i < ms.Len(); i++ {
+		sel := ms.At(i)
+		m, isF := sel.Obj().(*types.Func)
+		if !isF || !m.Exported() || have[m.Name()] || len(sel.Index()) < 2 || m.Pkg() == nil || !c.inModule(m.Pkg()) {
+			continue
+		}
+		if fn := c.Prog.MethodValue(sel); fn != nil && len(fn.Blocks) > 0 {
+			out = append(out, fn)
+		}
+	}
 	return out
 }
 
